@@ -1,17 +1,14 @@
 (* C10 — whitespace and letter case never matter; formatting round-trips. *)
 From Schwifty Require Import Lib.Base Lib.Lit Model.Clean Model.Data Model.Iban Model.Bic.
-From Schwifty Require Import Spec.Iso13616 Spec.Iso9362.
+From Schwifty Require Import Spec.Iso13616 Spec.Iso9362 Spec.Whitespace.
 From Schwifty Require Import Proofs.CleanFacts Proofs.IbanFacts Proofs.BicFacts Proofs.FormatFacts Proofs.GenObligations.
 From Schwifty Require Import Gen.Env Gen.IbanData Gen.IbanCfg Gen.BicCfg Gen.Accessors.
 From Coq Require Import String.
 
 Lemma C10_letters_obl : env_letters_ok the_env = true.
 Proof. vm_cast_no_check (eq_refl true). Qed.
-(* what the property means by whitespace: the code points Unicode calls white space (str.isspace / \s in a str pattern):
-   tab, LF, VT, FF, CR, FS..US, space, NEL, NBSP, Ogham space, en quad .. hair space, LS, PS, NNBSP, MMSP, ideographic space *)
-Definition ws_required : list N :=
-  [9; 10; 11; 12; 13; 28; 29; 30; 31; 32; 133; 160; 5760; 8192; 8193; 8194; 8195; 8196; 8197; 8198; 8199; 8200; 8201; 8202;
-   8232; 8233; 8239; 8287; 12288]%N.
+(* what the property means by whitespace: Spec/Whitespace.v *)
+Definition ws_required : list N := unicode_whitespace.
 Lemma C10_ws_obl : forallb (is_space the_env) ws_required = true.
 Proof. vm_cast_no_check (eq_refl true). Qed.
 
